@@ -6,7 +6,10 @@ import (
 	"flag"
 	"fmt"
 	"os"
+	"runtime"
+	"strings"
 	"testing"
+	"time"
 
 	"dsim/core"
 )
@@ -45,6 +48,7 @@ func TestWorker(t *testing.T) {
 	if *fScenario == "" {
 		t.Skip("no scenario")
 	}
+	go watchdog()
 	FullLog = *fFull
 	if *fChoiceLog != "" {
 		f, err := os.Create(*fChoiceLog)
@@ -104,5 +108,59 @@ func TestWorker(t *testing.T) {
 		progress(i)
 		sample := *fSample > 0 && i%*fSample == 0
 		emit(RunOne(t, sc, *fSeed, i, *fMode, nil, *fKeep, sample))
+	}
+}
+
+// watchdog runs outside every bubble and watches real time: if the driver has
+// not come back from a wait for quiescence for 20 s, some goroutine is neither
+// durably blocked nor finishing. A bubble goroutine blocked on a mutex under
+// frames of the dht module is a wedge of real code (reported as WEDGE, which
+// the orchestrator treats like a crash); anything else is harness trouble.
+func watchdog() {
+	last := core.Heartbeat.Load()
+	stuck := 0
+	for {
+		time.Sleep(2 * time.Second)
+		cur := core.Heartbeat.Load()
+		if cur != last || cur == 0 {
+			last, stuck = cur, 0
+			continue
+		}
+		stuck++
+		if stuck < 10 {
+			continue
+		}
+		buf := make([]byte, 8<<20)
+		n := runtime.Stack(buf, true)
+		st := string(buf[:n])
+		frame := ""
+		for _, g := range strings.Split(st, "\n\n") {
+			if !strings.Contains(g, "synctest bubble") {
+				continue
+			}
+			if !(strings.Contains(g, "sync.(*Mutex).Lock") || strings.Contains(g, "sync.(*RWMutex).") || strings.Contains(g, "[sync.Mutex.Lock") || strings.Contains(g, "[sync.RWMutex")) {
+				continue
+			}
+			for _, l := range strings.Split(g, "\n") {
+				if strings.HasPrefix(l, "github.com/anacrolix/dht/v2") {
+					if i := strings.Index(l, "("); i > 0 && strings.Contains(l[i:], ")") {
+						// keep the function name only
+						j := strings.LastIndex(l, "(")
+						l = l[:j]
+					}
+					frame = strings.TrimPrefix(l, "github.com/anacrolix/dht/v2")
+					break
+				}
+			}
+			if frame != "" {
+				break
+			}
+		}
+		if frame != "" {
+			fmt.Fprintf(os.Stderr, "panic: WEDGE goroutine blocked on a mutex of real code for 20s of real time\n\ngithub.com/anacrolix/dht/v2%s(...)\n\n%s\n", frame, st)
+			os.Exit(3)
+		}
+		fmt.Fprintf(os.Stderr, "HARNESS-STUCK no progress for 20s\n%s\n", st)
+		os.Exit(4)
 	}
 }
